@@ -83,6 +83,17 @@ class C18(Prop):
                     ops.append("v:-/" + gen.hexs(c))
             lines.append("%s %s %s" % ("wcs" if i % 3 != 0 else "wcsx", random_script(rng), ",".join(ops) if ops else "-"))
         yield "grammar-scripted", lines
+        # the console stream over the real stdout / stderr, locked between two writes (child process)
+        lines = []
+        for i in range(150 if tier == "thorough" else 50):
+            s = sgrgen.styled_text(rng, True, pieces=rng.choice([2, 3, 5]))
+            if i % 3 == 0:
+                s = list(b"a\x1b[31;44mb\x1b[32mc")
+            if not s:
+                continue
+            cut = rng.randrange(0, len(s) + 1) if i % 3 else rng.choice([3, 6, 11, 13])
+            lines.append("wlk %s %s %s" % (rng.choice(["out", "err"]), gen.hexs(s[:cut]), gen.hexs(s[cut:])))
+        yield "locked-std-streams", lines
 
     @staticmethod
     def _utf8(bs):
@@ -116,6 +127,8 @@ class C18(Prop):
 
     def nontrivial(self, line, impl):
         p = line.split(" ")
+        if p[0] == "wlk":
+            return "1b5b" in impl
         return p[1] != "-" or impl.count(";c") > 0
 
     def shrink_fields(self, line):
